@@ -26,8 +26,10 @@ Inductive vres (A : Type) :=
 | VOk (a : A)
 | VValueError          (* the Python code raises ValueError *)
 | VUnreadable          (* the ShExC tokens are not a triple constraint a reader accepts *)
-| VUnmodelled.         (* statement form outside this model (OR statements) *)
+| VUnmodelled          (* statement form outside this model (ShExC view of OR statements; an unknown helper) *)
+| VTypeError.          (* the Python code raises TypeError ([st_type] of a choice statement) *)
 Arguments VOk {A}. Arguments VValueError {A}. Arguments VUnreadable {A}. Arguments VUnmodelled {A}.
+Arguments VTypeError {A}.
 
 (** ** the Python value of [statement.cardinality]: an int or one of the
     sentinel strings (as assigned by the shexing stage, which imports them
@@ -107,6 +109,7 @@ Definition shex_view (ns : nsdict) (tau : str) (st : stmt) : vres constr :=
   | VValueError => VValueError
   | VUnreadable => VUnreadable
   | VUnmodelled => VUnmodelled
+  | VTypeError => VTypeError
   end.
 
 (** the shape label line: prefixize_shape_name_if_possible(shape.name) *)
@@ -126,10 +129,12 @@ Fixpoint vres_all {A} (l : list (vres A)) : vres (list A) :=
                | VValueError => VValueError
                | VUnreadable => VUnreadable
                | VUnmodelled => VUnmodelled
+               | VTypeError => VTypeError
                end
     | VValueError => VValueError
     | VUnreadable => VUnreadable
     | VUnmodelled => VUnmodelled
+    | VTypeError => VTypeError
     end
   end.
 
@@ -139,9 +144,11 @@ Definition shex_shape_view (ns : nsdict) (tau : str) (sh : shape) : vres cshape 
   | VOk _, VValueError => VValueError
   | VOk _, VUnreadable => VUnreadable
   | VOk _, VUnmodelled => VUnmodelled
+  | VOk _, VTypeError => VTypeError
   | VValueError, _ => VValueError
   | VUnreadable, _ => VUnreadable
   | VUnmodelled, _ => VUnmodelled
+  | VTypeError, _ => VTypeError
   end.
 
 Definition shex_doc_view (ns : nsdict) (tau : str) (l : list shape) : vres (list cshape) :=
@@ -162,6 +169,20 @@ Definition generate_r_uri (s : str) : option str :=
   if prefixb shacl_uri_corner_open s && suffixb shacl_uri_corner_close s then Some (slice s 1 (-1))
   else if existsb (fun p => prefixb p s) shacl_uri_schemes then Some s
   else None.
+
+(** utils/uri.py [remove_corners(a_uri, raise_error_if_no_corners=False)]: one pair of
+    enclosing corners goes, and only when the string both starts with '<' and ends with '>' *)
+Definition cornered (s : str) : bool := prefixb (Str "<") s && suffixb (Str ">") s.
+
+Definition remove_corners_lenient (s : str) : str :=
+  if cornered s then slice s 1 (-1) else s.
+
+(** _add_target_class: the object of the [sh:targetClass] arc.  [URIRef(shape.class_uri)] in the
+    tree where a shape-map label keeps its corners (finding C04-F2: rdflib then refuses to print
+    the graph), [URIRef(remove_corners(a_uri=shape.class_uri, raise_error_if_no_corners=False))]
+    once repaired; the generated flag [c_shacl_target_strips_corners] says which text was read. *)
+Definition target_class_obj (cls : str) : str :=
+  if c_shacl_target_strips_corners then remove_corners_lenient cls else cls.
 
 (** _generate_shape_uri; [None] = ValueError *)
 Definition generate_shape_uri (name : str) : option str :=
@@ -293,8 +314,32 @@ Fixpoint run_steps (st : stmt) (ty : str) (steps : list str) : vres (list (str *
     the helper calls as they stand in the source ([shacl_instantiation_steps],
     [shacl_regular_steps] of Gen/Consts.v).  The instantiation property is
     compared as handed to the serialiser (no corner removal on this side). *)
+(** a disjunction (FixedPropChoiceStatement, [s_choice]): [st_property], [cardinality] and
+    [is_inverse] are those of any statement, the property [st_type] raises TypeError
+    ([c_choice_st_type_raises]).  The helpers of the sequence run in order until the first one that
+    reads [statement.st_type] ([shacl_steps_reading_st_type] of Gen/Consts.v: [_add_node_type],
+    [_add_in_instance]); an earlier helper may raise first ([_add_path]: ValueError). *)
+Fixpoint run_steps_choice (st : stmt) (steps : list str) : vres (list (str * rnode)) :=
+  match steps with
+  | [] => VOk []
+  | x :: rest =>
+    if mem_str x shacl_steps_reading_st_type then
+      (if str_eqb c_choice_st_type_raises (Str "TypeError") then VTypeError else VUnmodelled)
+    else
+      match step_arcs st [] x with
+      | None => VUnmodelled
+      | Some None => VValueError
+      | Some (Some a) =>
+        match run_steps_choice st rest with
+        | VOk b => VOk (a ++ b)
+        | v => v
+        end
+      end
+  end.
+
 Definition shacl_arcs (tau : str) (st : stmt) : vres (list (str * rnode)) :=
-  if s_choice st then VUnmodelled
+  if s_choice st then run_steps_choice st (if str_eqb (s_prop st) tau then shacl_instantiation_steps
+                                           else shacl_regular_steps)
   else match s_types st with
        | [ty] => run_steps st ty (if str_eqb (s_prop st) tau then shacl_instantiation_steps
                                   else shacl_regular_steps)
@@ -307,6 +352,7 @@ Definition shacl_view (tau : str) (st : stmt) : vres rnode :=
   | VValueError => VValueError
   | VUnreadable => VUnreadable
   | VUnmodelled => VUnmodelled
+  | VTypeError => VTypeError
   end.
 
 (** _add_shape with detect_minimal_iri off: the node shape's IRI and arcs *)
@@ -317,13 +363,19 @@ Definition shacl_shape (tau : str) (sh : shape) : vres (str * list (str * rnode)
     match vres_all (map (shacl_view tau) (sh_stmts sh)) with
     | VOk ps =>
       VOk (u, (rdflib_RDF_type, RIri c_shacl_R_SHACL_SHAPE_URI) ::
-              (c_shacl_R_SHACL_TARGET_CLASS_PROP, RIri (sh_class sh)) ::
+              (c_shacl_R_SHACL_TARGET_CLASS_PROP, RIri (target_class_obj (sh_class sh))) ::
               map (fun p => (c_shacl_R_SHACL_PROPERTY_PROP, p)) ps)
     | VValueError => VValueError
     | VUnreadable => VUnreadable
     | VUnmodelled => VUnmodelled
+    | VTypeError => VTypeError
     end
   end.
+
+(** the ShExC side carries the class key of a shape as it is ([cs_class]); the node shape names
+    [target_class_obj] of it as its target *)
+Definition retarget (s : cshape) : cshape :=
+  {| cs_label := cs_label s; cs_class := target_class_obj (cs_class s); cs_constraints := cs_constraints s |}.
 
 Definition shacl_doc (tau : str) (l : list shape) : vres (list (str * list (str * rnode))) :=
   vres_all (map (shacl_shape tau) l).
